@@ -145,6 +145,44 @@ def t_lr():
     check("pattern '<ARGS> ,' rejected", not patterns.deterministic([L.ID, L.ARGS_TEMP, L.ARGSEP, L.ID]))
 
 
+def t_lr_run():
+    """the reference's LR run (the oracle of C13's long inputs) against the brute-force oracle on every short input of 150
+    random conflict-free grammars, in full and in prefix reading; sampled words against their generating derivation"""
+    import itertools
+    import random
+    from vlib.props import c13
+    rnd = random.Random(20260928)
+    done = 0
+    while done < 150:
+        nnt, nt, rules = c13.gen(rnd, rnd.choice([False, False, "wide", "prefix"]))
+        maxt = max([s[1] for l, r in rules for s in r if s[0] == "t"] + [0])
+        if not maxt or maxt > 3:
+            continue
+        tab = lr.build(rules, nnt, 0, False, [("t", i) for i in range(1, maxt + 1)])
+        if tab["conflicts"] or c13.cyclic(rules, nnt):
+            continue
+        done += 1
+        o = cfg.Oracle(rules, nnt)
+        for n in range(0, 5):
+            for w in itertools.product(range(1, maxt + 1), repeat=n):
+                w = list(w)
+                trees = o.trees(w, 0)
+                got = lr.parse(tab, w)
+                if (got is None) != (not trees) or (trees and (len(trees) != 1 or trees[0] != got)):
+                    check("lr.parse == brute force on %s for %s" % (w, rules), False, "%s vs %s" % (got, trees))
+                    return
+                mem = lr.prefix_members(tab, w)
+                exp = [(k, o.trees(w[:k], 0)[0]) for k in range(len(w) + 1) if o.trees(w[:k], 0)]
+                if mem != exp:
+                    check("lr.prefix_members == brute force on %s for %s" % (w, rules), False, "%s vs %s" % (mem, exp))
+                    return
+        sw = lr.sample_word(rnd, rules, nnt, 0, 12, 60)
+        if sw is not None and lr.parse(tab, sw[0]) != sw[1]:
+            check("sampled word parses to its derivation (%s)" % (rules,), False)
+            return
+    check("reference LR run agrees with brute force", True)
+
+
 def t_includes():
     files = {"m": 'a include "x" b include "m" include "y" c include', "x": "q"}
     r = includes.resolve(files, "m")
@@ -165,7 +203,7 @@ def t_bytecode():
 
 
 def main():
-    for t in (t_lexer, t_gen_test, t_macro_application, t_lr, t_includes, t_bytecode):
+    for t in (t_lexer, t_gen_test, t_macro_application, t_lr, t_lr_run, t_includes, t_bytecode):
         try:
             t()
         except Exception as e:  # noqa
